@@ -160,7 +160,7 @@ EMPHASIS = {
     "C10": [fam("insert", 1500)],
     "C11": [fam("mutate", 1500)],
     "C12": [fam("iterx", 0, "--entries", "4", "--calls", "6"), fam("iter", 600)],
-    "C13": [fam("capacity", 300), fam("churn", 10), fam("capx", 0)],
+    "C13": [fam("capacity", 300), fam("churn", 10), fam("capx", 0), fam("slide", 0)],
     "C14": [fam("clone", 1000)],
     "C15": [fam("retainx", 0, "--entries", "6"), fam("retain", 600)],
     "C16": [fam("panicx", 0, "--rounds", "1"), fam("panic", 300)],
@@ -175,8 +175,8 @@ THOROUGH_EXTRA = {
     "C15": [fam("retainx", 0, "--entries", "10")],
     "C16": [fam("panicx", 0, "--rounds", "6")],
 }
-EXHAUSTIVE_FAMILIES = {"iterx", "forgetx", "retainx", "capx", "panicx", "exh"}
-SHARDED = {"iterx", "forgetx", "retainx", "panicx", "exh"}
+EXHAUSTIVE_FAMILIES = {"iterx", "forgetx", "retainx", "capx", "panicx", "exh", "slide"}
+SHARDED = {"iterx", "forgetx", "retainx", "panicx", "exh", "slide"}
 
 
 def plan(prop, tier):
